@@ -38,6 +38,10 @@ type Spec struct {
 	Post func(sc interface{}, res *simrt.Result) *simrt.Violation
 	// LeakOK: unfinished workers at the end of a run are not a violation.
 	LeakOK bool
+	// NoShrink: failures cannot be re-run in the same process (the race detector reports
+	// each race once per process); the replay file is written unminimised and confirmed
+	// by the driver in a fresh process.
+	NoShrink bool
 	// Sequential: the scenario has a single worker (schedule knobs are irrelevant).
 	Sequential bool
 }
@@ -231,6 +235,11 @@ func exploreMain(t *testing.T, spec *Spec) {
 			spec.Knobs(r, sc, &cfg)
 		}
 		cfg.Trace = trace
+		if outPath != "" {
+			// should the code under test crash the whole process (fatal runtime error), the
+			// driver replays this file in a fresh process
+			_ = writeReplay(outPath+".current.json", spec, sc, cfg, nil, rs, tier, "in-progress")
+		}
 		res, v := RunOne(t, spec, sc, cfg)
 		sum.Runs++
 		sum.Steps += int64(res.Steps)
@@ -373,6 +382,10 @@ func shrinkAndSave(t *testing.T, spec *Spec, sc interface{}, cfg simrt.Config, r
 	rcfg.Trace = false
 	sc = roundTrip(spec, sc)
 	_ = writeReplay(base+".orig.json", spec, sc, rcfg, v, rs, tier, "unminimised")
+	if spec.NoShrink {
+		_ = writeReplay(base+".json", spec, sc, rcfg, v, rs, tier, "unminimised (re-running in the same process is not possible for this check)")
+		return base + ".json", true
+	}
 	// confirm that the tape reproduces the failure in this process
 	_, v2 := RunOne(t, spec, sc, rcfg)
 	if v2 == nil || v2.Class != v.Class {
@@ -406,7 +419,7 @@ func replayMain(t *testing.T, spec *Spec) {
 		os.Exit(2)
 	}
 	cfg := rf.Config
-	cfg.Replay = true
+	cfg.Replay = rf.Note != "in-progress" // a crashed run has no tape yet: its seeds reproduce it
 	cfg.Trace = os.Getenv("VERIF_TRACE") == "1"
 	res, v := RunOne(t, spec, sc, cfg)
 	if cfg.Trace {
